@@ -99,6 +99,20 @@ type wireMsg struct {
 	T    int  `json:"t"`
 	Size int  `json:"size"`
 	Z    bool `json:"z"`
+	NL   bool `json:"nl"` // a JSON text: the encoder may end it with one line feed
+}
+
+// wantMsg is what the application wrote as one message.
+type wantMsg struct {
+	B  []byte
+	NL bool
+}
+
+func (w wantMsg) eq(b []byte) bool {
+	if bytes.Equal(b, w.B) {
+		return true
+	}
+	return w.NL && len(b) == len(w.B)+1 && b[len(b)-1] == '\n' && bytes.Equal(b[:len(b)-1], w.B)
 }
 
 // gotMsg is a data message as the independent parser reassembles it.
@@ -111,7 +125,7 @@ type gotMsg struct {
 // records renders a tokenised stream as the trace lines of one session (without the reset line) and returns the
 // data messages an independent RFC 6455/7692 receiver reassembles from it. want[k] are the bytes the
 // application wrote as its k-th message: equality is computed here (TLC cannot hold megabytes), judged in WsWire.
-func records(frames []frame, junkAt, total int, want [][]byte) (string, []gotMsg) {
+func records(frames []frame, junkAt, total int, want []wantMsg) (string, []gotMsg) {
 	var sb strings.Builder
 	var got []gotMsg
 	var cur []byte
@@ -161,7 +175,7 @@ func records(frames []frame, junkAt, total int, want [][]byte) (string, []gotMsg
 					ilen = len(body)
 				}
 				k := len(got)
-				ieq = ok && k < len(want) && bytes.Equal(body, want[k])
+				ieq = ok && k < len(want) && want[k].eq(body)
 				got = append(got, gotMsg{Op: curOp, Payload: body, Ok: ok})
 			}
 			cur, curOpen = nil, false
